@@ -1,5 +1,5 @@
 //! C17: the complete joypad transition relation through the public API.
-//! line: joy a=<act> d=<dir> sa=<0|1> sd=<0|1> op=<p|r|s> arg=<n> | v0=<p1 before> v1=<p1 after> i1=<irq> i2=<irq again>
+//! line: c17 a=<act> d=<dir> sa=<0|1> sd=<0|1> op=<p|r|s> arg=<n> | v0=<p1 before> v1=<p1 after> i1=<irq> i2=<irq again>
 use crate::devices::joypad::{Button, Joypad};
 use crate::devices::interrupts::InterruptFlag;
 use crate::util::Opts;
@@ -22,7 +22,7 @@ fn build(a: u8, d: u8, sa: bool, sd: bool) -> Joypad {
   j
 }
 
-pub fn run(_opts: &Opts, w: &mut dyn Write) {
+pub fn run(_sub: &str, _opts: &Opts, w: &mut dyn Write) {
   for a in 0..16u8 { for d in 0..16u8 { for sa in 0..2 { for sd in 0..2 {
     let mut ops: Vec<(char, u8)> = Vec::new();
     for k in 0..8 { ops.push(('p', k)); }
@@ -40,7 +40,7 @@ pub fn run(_opts: &Opts, w: &mut dyn Write) {
       let v1 = j.get_value();
       let i1 = j.get_interrupt() == InterruptFlag::joypad();
       let i2 = j.get_interrupt() == InterruptFlag::joypad();
-      writeln!(w, "joy a={} d={} sa={} sd={} op={} arg={} | v0={} v1={} i1={} i2={}",
+      writeln!(w, "c17 a={} d={} sa={} sd={} op={} arg={} | v0={} v1={} i1={} i2={}",
         a, d, sa, sd, op, arg, v0, v1, i1 as u8, i2 as u8).unwrap();
     }
   }}}}
